@@ -811,17 +811,11 @@ fn execute(args: &Opts, input: String, filename: Option<PathBuf>) -> Result<Vec<
 
 	// Let's figure out if we want to print the whole buffer
 	let no_fields = ctx.fmt_lines.is_empty(); // No fields were extracted
-	let has_files = !ctx.args.files.is_empty(); // We have files to edit
 	let has_pattern_search = has_global_with_field(&ctx.args.cmds);
-	let editing_inplace = args.edit_inplace; // We are not editing in place
 
-	// If we have not extracted any fields, and the following conditions are true:
-	// * We have files without editing in place, or
-	// * We don't have any files, order
-	// * We have a pattern search with at least one field extraction
-	//
-	// then we print the entire buffer
-	let should_print_entire_buffer = (!has_pattern_search && (!editing_inplace || !has_files)) && no_fields;
+	// If we have not extracted any fields and there is no pattern search that extracts fields,
+	// the entire buffer is the output (also with -i: it is what gets written back to the file)
+	let should_print_entire_buffer = !has_pattern_search && no_fields;
 
 	if should_print_entire_buffer {
 		let big_line = vicut.current_buffer().buffer.clone();
